@@ -243,13 +243,13 @@ Qed.
 """
 
 
-def reassign_file(info, meth, attr, idx):
-    """re-assigning the current value of an attribute changes no attribute value the estimate depends on, and the
-    estimate read afterwards is the same estimate"""
+def reassign_files(info, meth, attr, idx):
+    """re-assigning the current value of an attribute changes no attribute value the estimate depends on (first file, needs
+    only the tactics), and the estimate read afterwards is the same estimate (second file, uses read_is_fresh)"""
     fld = ATTR_FIELD[attr]
-    t = HEADER.replace('Gen.C07Machine.', 'Gen.C07Machine Gen.C07Tactics Gen.C07Generic.')
-    t += "Section Generic.\nVariables (m : mask) (call_ : St -> Res).\nHypothesis Hcall : CallSpec m call_.\n\n"
-    t += r"""Lemma unchanged_%(M)s s : Inv m s ->
+    sec = "Section Generic.\nVariables (m : mask) (call_ : St -> Res).\nHypothesis Hcall : CallSpec m call_.\n\n"
+    t1 = HEADER.replace('Gen.C07Machine.', 'Gen.C07Machine Gen.C07Tactics.') + sec
+    t1 += r"""Lemma unchanged_%(M)s s : Inv m s ->
   let s1 := fst (%(M)s call_ (f_%(F)s s) s) in Inv m s1 /\ msnap m s1 = msnap m s /\ scaled_of s1 = scaled_of s.
 Proof.
   intros H. inv_start H s. cbv zeta.
@@ -257,12 +257,14 @@ Proof.
     change (holds (fun r => Inv m (fst r) /\ msnap m (fst r) = sn /\ scaled_of (fst r) = sc) t) end.
   exec; (split; [ inv_leaf | split; rd; real_split; use_bools; reflexivity ]).
 Qed.
-
-Theorem reassign_idempotent_%(M)s s : Inv m s ->
+End Generic.
+""" % {'M': meth, 'F': fld}
+    t2 = HEADER.replace('Gen.C07Machine.', 'Gen.C07Machine Gen.C07Tactics Gen.C07Generic Gen.C07Un%d.' % idx) + sec
+    t2 += r"""Theorem reassign_idempotent_%(M)s s : Inv m s ->
   let s1 := fst (%(M)s call_ (f_%(F)s s) s) in
   exists sa pa sb pb, Spectrum__getPSD call_ s = (sa, Ok pa) /\ Spectrum__getPSD call_ s1 = (sb, Ok pb) /\ same_estimate pa pb.
 Proof.
-  intros H s1. destruct (unchanged_%(M)s s H) as [H1 [Hs Hc]]. fold s1 in H1, Hs, Hc.
+  intros H s1. first [ destruct (unchanged_%(M)s m call_ Hcall s H) as [H1 [Hs Hc]] | destruct (unchanged_%(M)s m call_ s H) as [H1 [Hs Hc]] ]. fold s1 in H1, Hs, Hc.
   destruct (read_is_fresh m call_ Hcall s H) as [sa [Ea [_ [_ [Sa Ca]]]]].
   destruct (read_is_fresh m call_ Hcall s1 H1) as [sb [Eb [_ [_ [Sb Cb]]]]].
   exists sa, (target m sa), sb, (target m sb). split; [exact Ea | split; [exact Eb |]].
@@ -270,7 +272,7 @@ Proof.
 Qed.
 End Generic.
 """ % {'M': meth, 'F': fld}
-    return ('C07Re%d' % idx, t), ['unchanged_' + meth, 'reassign_idempotent_' + meth]
+    return ('C07Un%d' % idx, t1, ['unchanged_' + meth]), ('C07Re%d' % idx, t2, ['reassign_idempotent_' + meth])
 
 
 def split_files(info, stem, method, choices):
@@ -385,32 +387,39 @@ Proof. intros s r ops E. apply reach; [intros; apply inv_step_%(cn)s; assumption
 
 
 def convfresh_files(info, choices):
-    """when a PSD is stored (fresh or stale), get_converted_psd returns the estimate of the current attribute values in the
-    requested layout (or raises)"""
+    """get_converted_psd preserves the invariant and, when a PSD is stored (fresh or stale), returns the estimate of the
+    current attribute values in the requested layout (or raises); proved per literal of _sides_choices + other, then combined"""
     GEN = HEADER.replace('Gen.C07Machine.', 'Gen.C07Machine Gen.C07Tactics.')
     sec = "Section Generic.\nVariables (m : mask) (call_ : St -> Res).\nHypothesis Hcall : CallSpec m call_.\n\n"
-    stmt = ("Inv m s -> f_cache s <> VNone ->\n  let r := Spectrum_get_converted_psd call_ %s s in\n"
-            "  Inv m (fst r) /\\ forall p, snd r = Ok p -> p = target m (upd_sides %s (fst r))")
-    prf = ("Proof.\n  intros H Hne. inv_start H s. cbv zeta.\n"
-           "  match goal with |- Inv m (fst ?t) /\\ (forall p, snd ?t = Ok p -> p = target m (upd_sides ?v (fst ?t))) =>\n"
-           "    change (holds (fun r => Inv m (fst r) /\\ (forall p, snd r = Ok p -> p = target m (upd_sides v (fst r)))) t) end.\n"
-           "  exec; (split; [ inv_leaf | let Hp := fresh \"Hp\" in intros p Hp; first [ discriminate Hp\n"
+    stmt = ("Inv m s ->\n  let r := Spectrum_get_converted_psd call_ %s s in\n"
+            "  Inv m (fst r) /\\ (f_cache s <> VNone -> forall p, snd r = Ok p -> p = target m (upd_sides %s (fst r)))")
+    prf = ("Proof.\n  intros H. inv_start H s. cbv zeta.\n"
+           "  match goal with |- Inv m (fst ?t) /\\ (?c <> VNone -> forall p, snd ?t = Ok p -> p = target m (upd_sides ?v (fst ?t))) =>\n"
+           "    change (holds (fun r => Inv m (fst r) /\\ (c <> VNone -> forall p, snd r = Ok p -> p = target m (upd_sides v (fst r)))) t) end.\n"
+           "  exec; (split; [ inv_leaf | let Hp := fresh \"Hp\" in let Hne := fresh \"Hne\" in intros Hne p Hp; first [ discriminate Hp\n"
+           "     | exfalso; apply Hne; reflexivity\n"
            "     | injection Hp as <-; rd; real_split; use_bools; first [reflexivity | cache_eq] ] ]).\nQed.\n")
     files = []
     for i, c in enumerate(choices):
         v = '(VStr "%s")' % c
         t = GEN + sec + "Lemma F_conv_c%d s : %s.\n" % (i, stmt % (v, v)) + prf + "End Generic.\n"
-        files.append(('ConvF_c%d' % i, t))
+        files.append(('Conv_c%d' % i, t))
     hyps = ' -> '.join('veqb v (VStr "%s") = false' % c for c in choices)
     t = GEN + sec + "Lemma F_conv_other v s : %s -> %s.\n" % (hyps, stmt % ('v', 'v'))
-    t += prf.replace("intros H Hne.", "intros %s H Hne." % ' '.join('Hv%d' % i for i in range(len(choices)))) + "End Generic.\n"
-    files.append(('ConvF_other', t))
+    t += prf.replace("intros H.", "intros %s H." % ' '.join('Hv%d' % i for i in range(len(choices)))) + "End Generic.\n"
+    files.append(('Conv_other', t))
     t = HEADER.replace('Gen.C07Machine.', 'Gen.C07Machine Gen.C07Tactics ' + ' '.join('Gen.C07%s' % n for n, _ in files) + '.')
-    t += sec + "Theorem converted_is_fresh v s : %s.\nProof.\n  intros H Hne.\n" % (stmt % ('v', 'v'))
+    t += sec + "Lemma F_conv v s : %s.\nProof.\n  intros H.\n" % (stmt % ('v', 'v'))
     for i, c in enumerate(choices):
         t += ("  destruct (veqb v (VStr \"%s\")) eqn:E%d; [apply veqb_sound in E%d; subst v; apply F_conv_c%d; assumption|].\n" % (c, i, i, i))
-    t += "  apply F_conv_other; assumption.\nQed.\nEnd Generic.\n"
-    return files, ('ConvF', t), 'converted_is_fresh'
+    t += "  apply F_conv_other; assumption.\nQed.\n\n"
+    t += ("Lemma L_Spectrum_get_converted_psd v s : Inv m s -> Inv m (fst (Spectrum_get_converted_psd call_ v s)).\n"
+          "Proof. intros H. exact (proj1 (F_conv v s H)). Qed.\n\n")
+    t += ("Theorem converted_is_fresh v s : Inv m s -> f_cache s <> VNone -> forall p,\n"
+          "  snd (Spectrum_get_converted_psd call_ v s) = Ok p ->\n"
+          "  p = target m (upd_sides v (fst (Spectrum_get_converted_psd call_ v s))).\n"
+          "Proof. intros H Hne. exact (proj2 (F_conv v s H) Hne). Qed.\nEnd Generic.\n")
+    return files, ('Conv', t), ['L_Spectrum_get_converted_psd', 'converted_is_fresh']
 
 
 def build_plan(info):
@@ -421,18 +430,18 @@ def build_plan(info):
     info = dict(info); info['methods'] = list(info['methods']) + extra
     stage0 = [('C07Tactics', tactics_file(info), [])]
     g, gnames = generic_file(info)
-    cfiles, ccomb, cname = split_files(info, 'Conv', 'Spectrum_get_converted_psd', info['sides_choices'])
     sfiles, scomb, sname = split_files(info, 'Sides', 'Spectrum__setSides', info['sides_choices'])
     i1, i2, inames = init_files(info)
-    ffiles, fcomb, fname = convfresh_files(info, info['sides_choices'])
-    stage1 = [('C07Generic', g, gnames)] + [('C07' + n, t, []) for n, t in cfiles + sfiles + ffiles] + [(i1[0], i1[1], inames[:1])]
-    stage2 = [('C07' + ccomb[0], ccomb[1], [cname]), ('C07' + scomb[0], scomb[1], [sname]), (i2[0], i2[1], inames[1:]),
-              ('C07' + fcomb[0], fcomb[1], [fname])]
+    ffiles, fcomb, fnames = convfresh_files(info, info['sides_choices'])
+    cname = fnames[0]
+    stage1 = [('C07Generic', g, gnames)] + [('C07' + n, t, []) for n, t in sfiles + ffiles] + [(i1[0], i1[1], inames[:1])]
+    stage2 = [('C07' + fcomb[0], fcomb[1], fnames), ('C07' + scomb[0], scomb[1], [sname]), (i2[0], i2[1], inames[1:])]
     lem = [n for n in gnames if n.startswith('L_') and n != 'L_call'] + [cname, sname]
     k = 0
     for meth, attr in sorted(setter_methods(info).items()):
-        (nm, t), names = reassign_file(info, meth, attr, k); k += 1
-        stage2.append((nm, t, names))
+        f1, f2 = reassign_files(info, meth, attr, k); k += 1
+        stage1.append(f1)
+        stage2.append(f2)
     stage3 = []
     for cn in info['classes']:
         t, thms = class_file(info, cn, lem)
